@@ -12,6 +12,7 @@ import (
 	"verifharness/props/c12"
 	"verifharness/props/c16"
 	"verifharness/props/c20"
+	"verifharness/props/conv"
 	"verifharness/props/pipe"
 	"verifharness/props/ws"
 )
@@ -19,6 +20,7 @@ import (
 type runner func(tier string, seed int64, outDir string, replay string) (*core.Result, error)
 
 var drivers = map[string]runner{
+	"C10": conv.RunC10,
 	"C11": c11.Run,
 	"C12": c12.Run,
 	"C13": ws.RunFor("C13"),
